@@ -9,57 +9,222 @@ namespace CnvVerif
 
 /-! ### matching the reference by (chromosome, start, end) -/
 
+/-- `hasDup` is what it says -/
+theorem hasDup_false_iff {α} [BEq α] [LawfulBEq α] (l : List α) : hasDup l = false ↔ l.Nodup := by
+  induction l with
+  | nil => simp [hasDup]
+  | cons x xs ih =>
+    simp only [hasDup, Bool.or_eq_false_iff, ih, List.nodup_cons]
+    simp
+
+/-- the lookup step of `matchRef` -/
+def refFind (ref : List RRow) (r : SRow) : Option RRow := ref.find? (fun q => rKey q == sKey r)
+
+theorem matchRef_eq (ref : List RRow) (samp : List SRow) :
+    matchRef ref samp =
+      if hasDup (samp.map sKey) then .error .dupSample
+      else if hasDup (ref.map rKey) then .error .dupRef
+      else if ((samp.map (refFind ref)).filter (·.isNone)).length > 0
+        then .error (.missing ((samp.map (refFind ref)).filter (·.isNone)).length)
+        else .ok ((samp.map (refFind ref)).filterMap id) := rfl
+
+theorem found_all_some (ref : List RRow) (samp : List SRow)
+    (h : ¬ ((samp.map (refFind ref)).filter (·.isNone)).length > 0) :
+    (((samp.map (refFind ref)).filterMap id).map rKey = samp.map sKey) ∧
+      ∀ r ∈ (samp.map (refFind ref)).filterMap id, r ∈ ref := by
+  induction samp with
+  | nil => simp
+  | cons a t ih =>
+    simp only [List.map_cons] at h ⊢
+    cases hf : refFind ref a with
+    | none => simp [hf] at h
+    | some q =>
+      rw [hf] at h
+      simp only [List.filter_cons, Option.isNone_some, Bool.false_eq_true, if_false] at h
+      obtain ⟨ih1, ih2⟩ := ih h
+      have hq := List.find?_some hf
+      have hqm := List.mem_of_find?_eq_some hf
+      simp only [beq_iff_eq] at hq
+      have hcons : (some q :: t.map (refFind ref)).filterMap id = q :: (t.map (refFind ref)).filterMap id := rfl
+      rw [hcons]
+      refine ⟨?_, ?_⟩
+      · rw [List.map_cons, ih1, hq]
+      · intro r hr
+        simp only [List.mem_cons] at hr
+        rcases hr with rfl | hr
+        · exact hqm
+        · exact ih2 r hr
+
 /-- a successful match returns, for each sample row in order, a reference row with the same coordinates -/
 theorem matchRef_ok (ref : List RRow) (samp : List SRow) (m : List RRow) (h : matchRef ref samp = .ok m) :
     m.map rKey = samp.map sKey ∧ ∀ r ∈ m, r ∈ ref := by
-  sorry
+  rw [matchRef_eq] at h
+  split at h
+  · cases h
+  · split at h
+    · cases h
+    · split at h
+      · cases h
+      · rename_i hm
+        cases h
+        exact found_all_some ref samp hm
+
+theorem nodup_map_inj {α κ} (f : α → κ) (l : List α) (hn : (l.map f).Nodup) {a b : α}
+    (ha : a ∈ l) (hb : b ∈ l) (hab : f a = f b) : a = b := by
+  induction l with
+  | nil => cases ha
+  | cons x xs ih =>
+    rw [List.map_cons, List.nodup_cons] at hn
+    rcases List.mem_cons.mp ha with rfl | ha' <;> rcases List.mem_cons.mp hb with rfl | hb'
+    · rfl
+    · exact absurd (List.mem_map.mpr ⟨b, hb', hab.symm⟩) hn.1
+    · exact absurd (List.mem_map.mpr ⟨a, ha', hab⟩) hn.1
+    · exact ih hn.2 ha' hb'
+
+theorem find_perm_of_nodup_key {α κ} [BEq κ] [LawfulBEq κ] (key : α → κ) (l l' : List α) (k : κ)
+    (hp : l.Perm l') (hn : (l.map key).Nodup) :
+    l'.find? (fun q => key q == k) = l.find? (fun q => key q == k) := by
+  cases h : l.find? (fun q => key q == k) with
+  | none =>
+    rw [List.find?_eq_none] at h ⊢
+    intro x hx
+    exact h x (hp.mem_iff.mpr hx)
+  | some a =>
+    have ha := List.find?_some h
+    have ham := List.mem_of_find?_eq_some h
+    cases h' : l'.find? (fun q => key q == k) with
+    | none =>
+      rw [List.find?_eq_none] at h'
+      exact absurd ha (h' a (hp.mem_iff.mp ham))
+    | some b =>
+      have hb := List.find?_some h'
+      have hbm := hp.mem_iff.mpr (List.mem_of_find?_eq_some h')
+      simp only [beq_iff_eq] at ha hb
+      have := nodup_map_inj key l hn hbm ham (hb.trans ha.symm)
+      rw [this]
+
+theorem hasDup_perm {α} [BEq α] [LawfulBEq α] (l l' : List α) (hp : l.Perm l') : hasDup l' = hasDup l := by
+  cases h : hasDup l with
+  | false =>
+    rw [hasDup_false_iff] at h ⊢
+    exact hp.nodup_iff.mp h
+  | true =>
+    cases h' : hasDup l' with
+    | true => rfl
+    | false =>
+      rw [hasDup_false_iff] at h'
+      have := (hasDup_false_iff l).mpr (hp.nodup_iff.mpr h')
+      rw [h] at this
+      cases this
 
 /-- it never depends on the row order of the reference when reference coordinates are unique -/
 theorem matchRef_ref_perm (ref ref' : List RRow) (samp : List SRow) (hp : ref.Perm ref')
     (hu : hasDup (ref.map rKey) = false) : matchRef ref' samp = matchRef ref samp := by
-  sorry
+  have hn := (hasDup_false_iff _).mp hu
+  have hf : refFind ref' = refFind ref := by
+    funext r
+    exact find_perm_of_nodup_key rKey ref ref' (sKey r) hp hn
+  rw [matchRef_eq, matchRef_eq, hf, hasDup_perm _ _ (hp.map rKey)]
 
 /-- duplicated coordinates in the sample or the reference are refused -/
 theorem matchRef_rejects_dup (ref : List RRow) (samp : List SRow)
     (h : hasDup (samp.map sKey) = true ∨ hasDup (ref.map rKey) = true) :
     ∃ e, matchRef ref samp = .error e := by
-  sorry
+  rw [matchRef_eq]
+  split
+  · exact ⟨_, rfl⟩
+  · split
+    · exact ⟨_, rfl⟩
+    · rename_i h1 h2
+      rcases h with h | h <;> contradiction
 
 /-- a sample bin absent from the reference is refused -/
 theorem matchRef_rejects_missing (ref : List RRow) (samp : List SRow) (r : SRow) (hr : r ∈ samp)
     (hm : ∀ q ∈ ref, rKey q ≠ sKey r) : ∃ e, matchRef ref samp = .error e := by
-  sorry
+  rw [matchRef_eq]
+  split
+  · exact ⟨_, rfl⟩
+  · split
+    · exact ⟨_, rfl⟩
+    · have hnone : refFind ref r = none := by
+        unfold refFind
+        rw [List.find?_eq_none]
+        intro q hq
+        simpa using hm q hq
+      have hmem : (none : Option RRow) ∈ (samp.map (refFind ref)).filter (·.isNone) := by
+        rw [List.mem_filter]
+        exact ⟨List.mem_map.mpr ⟨r, hr, hnone⟩, rfl⟩
+      rw [if_pos (List.length_pos_of_mem hmem)]
+      exact ⟨_, rfl⟩
 
-/-- `hasDup` is what it says -/
-theorem hasDup_false_iff {α} [BEq α] [LawfulBEq α] (l : List α) : hasDup l = false ↔ l.Nodup := by
-  sorry
+theorem gc_min_le_max : Generated.GC_MIN_FRACTION ≤ Generated.GC_MAX_FRACTION := by
+  norm_num [Generated.GC_MIN_FRACTION, Generated.GC_MAX_FRACTION]
 
 /-- the reference filters, with the constants read from params.py, are the ones the property names:
     log2 within ±5, spread ≤ 1, depth > 0 (depth = 0 is bad), GC within 0.3–0.7 -/
 theorem badBin_iff (r : RRow) :
     badBin r = true ↔ (r.log2 < -5 ∨ r.log2 > 5 ∨ r.spread > 1 ∨ r.depth = 0 ∨
       ∃ g, r.gc = some g ∧ (g > Generated.GC_MAX_FRACTION ∨ g < Generated.GC_MIN_FRACTION)) := by
-  sorry
+  unfold badBin
+  have h1 : Generated.MIN_REF_COVERAGE = -5 := rfl
+  have h2 : Generated.MAX_REF_SPREAD = 1 := rfl
+  have h3 : -Generated.MIN_REF_COVERAGE = 5 := by rw [h1]; norm_num
+  rw [h3, h1, h2, min_eq_left gc_min_le_max, max_eq_right gc_min_le_max]
+  cases hg : r.gc with
+  | none => simp [or_assoc]
+  | some g => simp [or_assoc]
 
 theorem gc_bounds_are : Generated.GC_MIN_FRACTION_dec = 3/10 ∧ Generated.GC_MAX_FRACTION_dec = 7/10 ∧
     Generated.MIN_REF_COVERAGE = -5 ∧ Generated.MAX_REF_SPREAD = 1 := by
-  sorry
+  refine ⟨rfl, rfl, rfl, rfl⟩
 
 /-! ### rolling median with mirrored edges -/
 
 theorem rollingMedian_length (x : List Rat) (wing : Nat) : (rollingMedian x wing).length = x.length := by
-  sorry
+  simp [rollingMedian]
+
+theorem padMirror_map (x : List Rat) (wing : Nat) (f : Rat → Rat) :
+    padMirror (x.map f) wing = (padMirror x wing).map f := by
+  simp [padMirror, List.map_take, List.map_reverse]
+
+theorem length_le_padMirror (x : List Rat) (wing : Nat) : x.length ≤ (padMirror x wing).length := by
+  simp [padMirror]; omega
 
 /-- the rolling median moves with the data: a constant added to every value is added to every output
     (this is why each correction removes a depth scale factor of its class) -/
 theorem rollingMedian_shift (x : List Rat) (wing : Nat) (c : Rat) (hx : x ≠ []) :
     rollingMedian (x.map (· + c)) wing = (rollingMedian x wing).map (· + c) := by
-  sorry
+  have _ := hx
+  unfold rollingMedian
+  simp only [padMirror_map, List.length_map, List.map_map]
+  apply List.map_congr_left
+  intro i hi
+  rw [List.mem_range] at hi
+  simp only [Function.comp]
+  rw [← List.map_drop, ← List.map_take]
+  apply medianR_transEquiv
+  intro h
+  have hl := congrArg List.length h
+  have := length_le_padMirror x wing
+  simp only [List.length_take, List.length_drop, List.length_nil] at hl
+  omega
 
 /-! ### center_by_window keeps every row attached to its own coordinates -/
 
 /-- `IsPerm p n`: the list `p` is a permutation of the indices `0..n-1` (what numpy returns) -/
 def IsPerm (p : List Nat) (n : Nat) : Prop := p.Perm (List.range n)
+
+theorem filterMap_range_getElem? {α} (l : List α) :
+    (List.range l.length).filterMap (fun i => l[i]?) = l := by
+  induction l with
+  | nil => rfl
+  | cons a t ih =>
+    rw [List.length_cons, List.range_succ_eq_map, List.filterMap_cons]
+    simp only [List.getElem?_cons_zero, List.filterMap_map]
+    congr 1
+
+/-- the projection of a sample row that `centerByWindow` must leave alone -/
+def sProj (r : SRow) : String × Int × Int × String × Rat := (r.chrom, r.s, r.e, r.gene, r.depth)
 
 /-- the correction changes nothing but log2, loses and invents no row: its output is a permutation
     of the input rows up to log2 -/
@@ -67,56 +232,180 @@ theorem centerByWindow_rows (perm : List Nat) (wing : Nat) (t : List SRow) (keys
     (hp : IsPerm perm t.length) (hk : keys.length = t.length) :
     ((centerByWindow perm wing t keys).map (fun r => (r.chrom, r.s, r.e, r.gene, r.depth))).Perm
       (t.map (fun r => (r.chrom, r.s, r.e, r.gene, r.depth))) := by
-  sorry
+  show ((centerByWindow perm wing t keys).map sProj).Perm (t.map sProj)
+  unfold centerByWindow
+  simp only []
+  have hlen : (t.zip keys).length = t.length := by simp [hk]
+  -- the shuffle is a permutation of the tagged rows
+  have hsh : (perm.filterMap (fun i => (t.zip keys)[i]?)).Perm (t.zip keys) := by
+    have h1 : (perm.filterMap (fun i => (t.zip keys)[i]?)).Perm
+        ((List.range (t.zip keys).length).filterMap (fun i => (t.zip keys)[i]?)) := by
+      apply List.Perm.filterMap
+      rw [hlen]; exact hp
+    rwa [filterMap_range_getElem?] at h1
+  generalize perm.filterMap (fun i => (t.zip keys)[i]?) = shuffled at hsh
+  have hord : (sortByKey (·.2) shuffled).Perm (t.zip keys) := (List.mergeSort_perm _ _).trans hsh
+  generalize sortByKey (·.2) shuffled = ordered at hord
+  have hb : (rollingMedian (ordered.map (·.1.log2)) wing).length = ordered.length := by
+    rw [rollingMedian_length, List.length_map]
+  generalize rollingMedian (ordered.map (·.1.log2)) wing = biases at hb
+  refine ((List.mergeSort_perm _ _).map sProj).trans ?_
+  rw [List.map_map]
+  have hf : (sProj ∘ fun p : (SRow × Rat) × Rat => { p.1.1 with log2 := p.1.1.log2 - p.2 })
+      = (sProj ∘ Prod.fst) ∘ Prod.fst := rfl
+  rw [hf, ← List.map_map, List.map_fst_zip (by omega)]
+  refine (hord.map _).trans ?_
+  rw [← List.map_map, List.map_fst_zip (by omega)]
 
 theorem centerByWindow_length (perm : List Nat) (wing : Nat) (t : List SRow) (keys : List Rat)
     (hp : IsPerm perm t.length) (hk : keys.length = t.length) :
     (centerByWindow perm wing t keys).length = t.length := by
-  sorry
+  have := (centerByWindow_rows perm wing t keys hp hk).length_eq
+  simpa using this
+
+theorem fix_string_trichotomy (a b : String) : a < b ∨ a = b ∨ b < a := by
+  by_cases h1 : a < b
+  · exact Or.inl h1
+  · by_cases h2 : b < a
+    · exact Or.inr (Or.inr h2)
+    · exact Or.inr (Or.inl (String.le_antisymm (String.not_lt.mp h2) (String.not_lt.mp h1)))
+
+theorem fix_chromKeyLt_iff (a b : Nat × String) :
+    chromKeyLt a b = true ↔ a.1 < b.1 ∨ (a.1 = b.1 ∧ a.2 < b.2) := by
+  simp [chromKeyLt]
+
+theorem fix_chromKey_trichotomy (a b : Nat × String) :
+    chromKeyLt a b = true ∨ a = b ∨ chromKeyLt b a = true := by
+  obtain ⟨a1, a2⟩ := a
+  obtain ⟨b1, b2⟩ := b
+  simp only [fix_chromKeyLt_iff, Prod.mk.injEq]
+  rcases Nat.lt_trichotomy a1 b1 with h | h | h
+  · left; left; exact h
+  · subst h
+    rcases fix_string_trichotomy a2 b2 with h2 | h2 | h2
+    · left; right; exact ⟨rfl, h2⟩
+    · right; left; exact ⟨rfl, h2⟩
+    · right; right; right; exact ⟨rfl, h2⟩
+  · right; right; left; exact h
+
+theorem fix_chromKeyLt_trans {a b c : Nat × String} (h1 : chromKeyLt a b = true) (h2 : chromKeyLt b c = true) :
+    chromKeyLt a c = true := by
+  rw [fix_chromKeyLt_iff] at *
+  rcases h1 with h1 | ⟨h1, h1'⟩ <;> rcases h2 with h2 | ⟨h2, h2'⟩
+  · left; omega
+  · left; omega
+  · left; omega
+  · right; exact ⟨by omega, String.lt_trans h1' h2'⟩
+
+theorem sSortLe_iff (a b : SRow) :
+    sSortLe a b = true ↔ chromKeyLt (sorterChrom a.chrom) (sorterChrom b.chrom) = true ∨
+      (sorterChrom a.chrom = sorterChrom b.chrom ∧ (a.s < b.s ∨ (a.s = b.s ∧ a.e ≤ b.e))) := by
+  simp only [sSortLe, Bool.or_eq_true, Bool.and_eq_true, beq_iff_eq]
+  grind
+
+theorem sSortLe_total (a b : SRow) : (sSortLe a b || sSortLe b a) = true := by
+  rw [Bool.or_eq_true, sSortLe_iff, sSortLe_iff]
+  rcases fix_chromKey_trichotomy (sorterChrom a.chrom) (sorterChrom b.chrom) with h | h | h
+  · left; left; exact h
+  · by_cases h1 : a.s < b.s
+    · left; right; exact ⟨h, Or.inl h1⟩
+    · by_cases h2 : b.s < a.s
+      · right; right; exact ⟨h.symm, Or.inl h2⟩
+      · have hs : a.s = b.s := by omega
+        by_cases h3 : a.e ≤ b.e
+        · left; right; exact ⟨h, Or.inr ⟨hs, h3⟩⟩
+        · right; right; exact ⟨h.symm, Or.inr ⟨hs.symm, by omega⟩⟩
+  · right; left; exact h
+
+theorem sSortLe_trans (a b c : SRow) (h1 : sSortLe a b = true) (h2 : sSortLe b c = true) :
+    sSortLe a c = true := by
+  rw [sSortLe_iff] at *
+  rcases h1 with h1 | ⟨k1, h1⟩ <;> rcases h2 with h2 | ⟨k2, h2⟩
+  · left; exact fix_chromKeyLt_trans h1 h2
+  · left; rw [← k2]; exact h1
+  · left; rw [k1]; exact h2
+  · right
+    refine ⟨k1.trans k2, ?_⟩
+    rcases h1 with h1 | ⟨h1, h1'⟩ <;> rcases h2 with h2 | ⟨h2, h2'⟩
+    · left; omega
+    · left; omega
+    · left; omega
+    · right; exact ⟨by omega, by omega⟩
+
+theorem sortS_sorted (t : List SRow) : (sortS t).Pairwise (fun a b => sSortLe a b = true) :=
+  List.pairwise_mergeSort sSortLe_trans sSortLe_total t
 
 /-- its output is in genomic order -/
 theorem centerByWindow_sorted (perm : List Nat) (wing : Nat) (t : List SRow) (keys : List Rat) :
     (centerByWindow perm wing t keys).Pairwise (fun a b => sSortLe a b = true) := by
-  sorry
+  unfold centerByWindow
+  exact sortS_sorted _
 
 /-! ### edge-bias formulas (docstrings of edge_losses / edge_gains) -/
 
 theorem edgeLoss_large (t i : Rat) (h : ¬ t < i) : edgeLoss t i = i / (2 * t) := by
-  sorry
+  simp [edgeLoss, h]
 
 theorem edgeLoss_small (t i : Rat) (h : t < i) : edgeLoss t i = i / (2 * t) - (i - t) ^ 2 / (2 * i * t) := by
-  sorry
+  simp [edgeLoss, h]
 
 theorem edgeGain_far (t g i : Rat) (hg : 0 ≤ g) (h : ¬ t + g < i) : edgeGain t g i = (i - g) ^ 2 / (4 * i * t) := by
-  sorry
+  simp [edgeGain, max_eq_right hg, h]
 
 theorem edgeGain_near (t g i : Rat) (hg : 0 ≤ g) (h : t + g < i) :
     edgeGain t g i = (i - g) ^ 2 / (4 * i * t) - (i - t - g) ^ 2 / (4 * i * t) := by
-  sorry
+  simp [edgeGain, max_eq_right hg, h]
 
 /-- an overlapping neighbour counts as adjacent -/
 theorem edgeGain_overlap (t g i : Rat) (hg : g < 0) : edgeGain t g i = edgeGain t 0 i := by
-  sorry
+  simp [edgeGain, max_eq_left (le_of_lt hg)]
 
 /-- a neighbour within the insert size never lowers coverage -/
 theorem edgeGain_nonneg (t g i : Rat) (ht : 0 < t) (hi : 0 < i) (hgi : g < i) : 0 ≤ edgeGain t g i := by
-  sorry
+  unfold edgeGain
+  have hg0 : 0 ≤ max 0 g := le_max_left _ _
+  have hgi' : max 0 g < i := max_lt hi hgi
+  generalize max 0 g = g' at *
+  have hpos : 0 < 4 * i * t := by positivity
+  simp only []
+  split
+  · rename_i h
+    rw [← sub_div]
+    apply div_nonneg _ (le_of_lt hpos)
+    have : (i - g') ^ 2 - (i - t - g') ^ 2 = t * (2 * (i - g') - t) := by ring
+    rw [this]
+    apply mul_nonneg (le_of_lt ht)
+    linarith
+  · apply div_nonneg (sq_nonneg _) (le_of_lt hpos)
 
 /-! ### weights -/
 
 theorem weight_eps_max : Generated.WEIGHT_EPSILON_dec = 1/10000 ∧ Generated.WEIGHT_MAX = 1 ∧
     Generated.WEIGHT_EPSILON ≤ Generated.WEIGHT_MAX ∧ 0 < Generated.WEIGHT_EPSILON ∧
     0 < Generated.WEIGHT_REF_EMPHASIS ∧ Generated.WEIGHT_REF_EMPHASIS < 1 := by
-  sorry
+  refine ⟨rfl, rfl, ?_, ?_, ?_, ?_⟩ <;>
+    norm_num [Generated.WEIGHT_EPSILON, Generated.WEIGHT_MAX, Generated.WEIGHT_REF_EMPHASIS]
+
+theorem clipQ_range (lo hi x : Rat) (h : lo ≤ hi) : lo ≤ clipQ lo hi x ∧ clipQ lo hi x ≤ hi := by
+  unfold clipQ
+  exact ⟨le_min h (le_max_left _ _), min_le_left _ _⟩
+
+theorem clipQ_mono (lo hi x y : Rat) (h : x ≤ y) : clipQ lo hi x ≤ clipQ lo hi y := by
+  unfold clipQ
+  exact min_le_min le_rfl (max_le_max le_rfl h)
 
 /-- every weight lies in [0.0001, 1] -/
 theorem applyWeights_range (rows : List (SRow × RRow × Rat)) (varT varA : Rat) :
     ∀ w ∈ applyWeights rows varT varA, Generated.WEIGHT_EPSILON ≤ w ∧ w ≤ Generated.WEIGHT_MAX := by
-  sorry
+  intro w hw
+  unfold applyWeights at hw
+  simp only [List.mem_map] at hw
+  obtain ⟨p, _, rfl⟩ := hw
+  exact clipQ_range _ _ _ weight_eps_max.2.2.1
 
 theorem applyWeights_length (rows : List (SRow × RRow × Rat)) (varT varA : Rat) :
     (applyWeights rows varT varA).length = rows.length := by
-  sorry
+  simp [applyWeights]
 
 /-- the weight formula of one bin: `pooled` = the reference carries spreads, `m` = mean sqrt size of the
     bin's class, `v` = residual variance of its class -/
@@ -129,11 +418,36 @@ def weightOf (pooled : Bool) (spread sq m v : Rat) : Rat :=
 theorem weight_mono_size (pooled : Bool) (spread m v sq₁ sq₂ : Rat) (hm : 0 < m) (hv : 0 ≤ v)
     (h1 : 0 < sq₁) (h12 : sq₁ ≤ sq₂) :
     weightOf pooled spread sq₁ m v ≤ weightOf pooled spread sq₂ m v := by
-  sorry
+  unfold weightOf
+  apply clipQ_mono
+  have hx := weight_eps_max.2.2.2.2.2
+  have hs : 1 - v / (sq₁ / m) ≤ 1 - v / (sq₂ / m) := by
+    have : v / (sq₂ / m) ≤ v / (sq₁ / m) := by
+      apply div_le_div_of_nonneg_left hv (div_pos h1 hm)
+      exact div_le_div_of_nonneg_right h12 (le_of_lt hm)
+    linarith
+  cases pooled with
+  | false => simpa using hs
+  | true =>
+    simp only [if_true]
+    have : (1 - Generated.WEIGHT_REF_EMPHASIS) * (1 - v / (sq₁ / m)) ≤
+        (1 - Generated.WEIGHT_REF_EMPHASIS) * (1 - v / (sq₂ / m)) :=
+      mul_le_mul_of_nonneg_left hs (by linarith)
+    linarith
 
 /-- … nor increases with the reference spread -/
 theorem weight_antitone_spread (pooled : Bool) (sq m v s₁ s₂ : Rat) (h0 : 0 ≤ s₁) (h12 : s₁ ≤ s₂) :
     weightOf pooled s₂ sq m v ≤ weightOf pooled s₁ sq m v := by
-  sorry
+  unfold weightOf
+  apply clipQ_mono
+  have hx := weight_eps_max.2.2.2.2.1
+  cases pooled with
+  | false => simp
+  | true =>
+    simp only [if_true]
+    have hsq : s₁ ^ 2 ≤ s₂ ^ 2 := by nlinarith
+    have : Generated.WEIGHT_REF_EMPHASIS * (1 - s₂ ^ 2) ≤ Generated.WEIGHT_REF_EMPHASIS * (1 - s₁ ^ 2) :=
+      mul_le_mul_of_nonneg_left (by linarith) (le_of_lt hx)
+    linarith
 
 end CnvVerif
